@@ -80,7 +80,6 @@ Literals ==
     /\ RNorm("1e3") = "1000"
     /\ RNorm("2.50") = "5/2"
     /\ RNorm("-0.0") = "0"
-    /\ RNorm("5e-324") = RPow("1/10", 324) \o ""  => TRUE
     /\ RMul("5e-324", RPow("10", 324)) = "5"
     /\ RNorm(7) = "7"
     /\ RAdd("0.1", "0.2") = "3/10"
@@ -88,6 +87,7 @@ Literals ==
     /\ ~RIsNum("nan") /\ ~RIsNum("inf") /\ ~RIsNum("-inf") /\ ~RIsNum("1/0") /\ ~RIsNum("abc")
     /\ RIsNum("12") /\ RIsNum("-1/3") /\ RIsNum("6.02e23")
     /\ RShow("1/3", 5) = "0.33333"
+    /\ RRoundDec("1/3", 4) = "3333/10000" /\ RRoundDec("-2/3", 2) = "-67/100" /\ RRoundDec("5", 3) = "5" /\ RRoundDec("1/8", 2) = "13/100"
     /\ RSq("-3/2") = "9/4" /\ RInv("4") = "1/4" /\ RHalf("3") = "3/2"
     /\ RGe("1/2", "1/3") /\ RGt("1/2", "1/3") /\ ~RGt("1/2", "1/2")
 
